@@ -665,7 +665,7 @@ fn main() {
         VARIANT.store(0, std::sync::atomic::Ordering::Relaxed);
         let (bcfgs, ccfgs) = (byte_cfgs(), char_cfgs());
         let lens = tu_verif::enumerate::threshold_lengths(run.pick(8, 10));
-        run.bounds.insert("long_phase".into(), json!(format!("symbol counts {lens:?} x 7 repeated patterns (the last one with the lowest and the highest code point) x every tokenizer config x ignore_special_tokens")));
+        run.bounds.insert("long_phase".into(), json!(format!("symbol counts {lens:?} x 7 repeated patterns (the last one with the lowest and the highest code point) ; per count also one grapheme cluster of that many code points (combining marks, emoji joined by U+200D), alone and inside text; x every tokenizer config x ignore_special_tokens")));
         let unit_l = space.units() + space2.units() + space3.units() + space4.units();
         let mut subjects: Option<(Vec<ByteSubject>, Vec<CharSubject>)> = None;
         for (k, n) in lens.iter().enumerate() {
@@ -678,6 +678,21 @@ fn main() {
             let (bytes, chars) = subjects.as_ref().unwrap();
             for pat in [&["a"][..], &["a", "ä", "😀"][..], &["<pad>", "a"][..], &["\r", "\n", "a", "\u{301}"][..], &["a", "Z", "~", " "][..], &["\u{915}", "\u{93f}", "a"][..], &["\u{0}", "a", "\u{10ffff}", "\u{7f}"][..]] {
                 let s = tu_verif::enumerate::repeat_symbols(pat, *n);
+                let p = Prepared::new(&s);
+                for ign in [false, true] {
+                    for sub in bytes {
+                        check_byte(&mut run, sub, &p, ign);
+                    }
+                    for sub in chars {
+                        check_char(&mut run, sub, &p, ign);
+                    }
+                }
+            }
+            // one giant grapheme cluster of n code points (a letter with n - 1 combining marks, an
+            // emoji joined n - 1 times), alone and with text before and after it
+            let marks = format!("a{}", "\u{301}".repeat(*n - 1));
+            let joined = format!("😀{}", "\u{200d}😀".repeat(*n - 1));
+            for s in [marks.clone(), format!("xy{marks}"), format!("xy{marks}za"), joined.clone(), format!("a{joined}a")] {
                 let p = Prepared::new(&s);
                 for ign in [false, true] {
                     for sub in bytes {
